@@ -33,7 +33,7 @@ CLAIMED = {
  "C11": ("seqmc", "model_checking",
    "explicit-state breadth-first search over the real Db with reader lock/unlock as history events; snapshot oracle for the locked tree, commit-order model for all columns",
    "From a state with a live tree K1: lock(K1)/unlock(K1), commits combining DereferenceTree(K1) with writes to hash and btree columns, later transactions writing the same keys, InsertTree(K2) reusing a node of K1, all stage interleavings, reopen. Oracle: the locked tree equals its snapshot at every state; every column agrees with the model applying transactions in commit-return order at every state, after drain and after reopen; after unlock the removal completes.",
-   "Quick: sequential part (lock/unlock are events; at most 3 process_commits calls per locked period). Thorough additionally runs the threaded variant under loom (`./check C11L`: reader holding the lock and inserting a sharing tree, pruner, later writer, pipeline thread(s); preemption bound 1-3; ~0.1 s per schedule because opening a multitree column scans its ref-count table under loom, so the wall cap was usually hit before the small-index build; two races of the deferral protocol found there are listed as known findings and tolerated by class).",
+   "`./check C11` runs the sequential part (lock/unlock are events; at most 3 process_commits calls per locked period; evidence C11.json) and the threaded part under loom side by side (evidence C11-loom.json; quick: one-pipeline-thread and two-readers scenarios at preemption bound 1, both complete; thorough: bound 2-3, split pipeline) (`pdbloom C11L`: reader holding the lock and inserting a sharing tree, pruner, later writer, pipeline thread(s); preemption bound 1-3; ~0.1 s per schedule because opening a multitree column scans its ref-count table under loom, so the wall cap was usually hit before the small-index build; two races of the deferral protocol found there are listed as known findings and tolerated by class).",
    "DESIGN.md §3 E1, §4 C11"),
  "C06": ("seqmc-sweep", "exploration",
    "exhaustive one-parameter sweeps over the real Db: every boundary length (quick) / every length 0..70000 (thorough) x content class x compression configuration; all ordered pairs/triples of representative size classes as overwrite sequences",
